@@ -1,5 +1,6 @@
 import SJ.Proofs.FromValue
 import SJ.Model.FromValueRoutes
+import SJ.Proofs.Schema
 /-!
 # C16 — `from_value` agrees with the text deserialiser
 
@@ -125,6 +126,15 @@ example : fromValue {} {} (.map (.int .u8) .bool) (.obj [([0x31, 0x32], .bool tr
 example : fromValue {} {} (.map (.int .u8) .bool) (.obj [([0x30, 0x31], .bool true)]) = .error () := by rfl
 example : fromValue {} {} (.map (.int .u8) .bool) (.obj [([0x32, 0x35, 0x36], .bool true)]) = .error () := by rfl
 example : fromValue {} {} (.map (.int .i8) .bool) (.obj [([0x2d, 0x30], .bool true)]) = .error () := by rfl
+
+/-- The comparator the executable specification applies to the three observed results (`TVal.eqv`
+    with floats compared) is equality of typed results; without floats it is still reflexive. -/
+theorem c16_result_comparator_exact (a b : TVal) :
+    (TVal.eqv true a b = true ↔ a = b) ∧ TVal.eqv false a a = true :=
+  ⟨TVal.eqv_true_iff a b, TVal.eqv_refl false a⟩
+
+example : TVal.eqv false (.seq [.f64 1, .int 2]) (.seq [.f64 3, .int 2]) = true := by decide +kernel
+example : TVal.eqv true (.seq [.f64 1, .int 2]) (.seq [.f64 3, .int 2]) = false := by decide +kernel
 
 /-- The tie to the source: the routing of `src/value/de.rs` regenerated by `tools/extract.py` on this run
     (which method delegates to which, which `Value` constructors each method accepts and what it calls,
